@@ -462,7 +462,12 @@ CancelPending(E, e, seen) ==
                                                                                           ELSE E[x].res[i]]]
                                      ELSE E[x]]
            RECURSIVE Fold(_, _)
-           Fold(EE, S) == IF S = {} THEN EE ELSE LET c == CHOOSE c \in S : TRUE IN Fold(CancelPending(EE, c, seen \cup {e}), S \ {c})
+           \* post-order: the child's descendants first, then the child itself is completed if nothing of it is pending any more
+           \* and it has been processed at all (fix: F5, partial)
+           Fold(EE, S) == IF S = {} THEN EE
+                          ELSE LET c == CHOOSE c \in S : TRUE
+                                   E2 == CancelPending(EE, c, seen \cup {e})
+                               IN Fold(IF E2[c].res # <<>> THEN Mark(E2, c) ELSE E2, S \ {c})
        IN Fold(E1, kids)
 
 OwnerResume(t) ==
@@ -482,22 +487,36 @@ OwnerResume(t) ==
           /\ task' = [task EXCEPT ![t].pc = "monx"]
   /\ UNCHANGED <<nev, q, unf, shut, hist, running, idle, semv, depth, lockq, nact, nx, xh, cur, o>>
 
-\* the interrupted owner's process_event is abandoned: no WAL line, no completion mark, no task_done (finding F5)
+\* the interrupted owner's process_event (fix: F5): the handlers of the event that will never run get a cancellation error, then
+\* the usual tail (completion mark, ancestors, history cleanup) runs and the cancellation travels on; no log / WAL line, and
+\* the caller's task_done is the caller's business (probe line ProcX when the exception leaves process_event)
+FailPending(x, b) == [x EXCEPT !.res = [i \in DOMAIN x.res |-> IF x.res[i].b = b /\ x.res[i].st = "pending"
+                                                                THEN [x.res[i] EXCEPT !.st = "error", !.err = "Cancelled:pending"]
+                                                                ELSE x.res[i]]]
+AbandonFx(b, e) ==
+  LET E0 == IF IsParallel(Cfg, b) THEN ev ELSE [ev EXCEPT ![e] = FailPending(@, b)]
+      E1 == Mark(E0, e)
+      E2 == MarkUp(E1, hist, e, {})
+  IN [E |-> E2, H |-> [hist EXCEPT ![b] = Evict(E2, b, @)]]
 OwnerAbandon(t) ==
   /\ cur = NoTask /\ t[1] = "h" /\ (task[t].pc = "monx" \/ (task[t].pc = "mon" /\ task[t].canc))
-  /\ o' = Obs(ProcLineX("ProcX", t, task[t].fb, task[t].fe, "Cancelled"), ev, nev, hist, q)
-  /\ task' = [task EXCEPT ![t].pc = "cancelled", ![t].fe = 0, ![t].fb = "", ![t].fh = "", ![t].fa = 0, ![t].todo = <<>>]
-  /\ UNCHANGED <<nev, ev, q, unf, shut, hist, running, idle, semv, depth, lockq, nact, nx, xh, cur>>
+  /\ LET fx == AbandonFx(task[t].fb, task[t].fe) IN
+     /\ ev' = fx.E /\ hist' = fx.H
+     /\ o' = Obs(ProcLineX("ProcX", t, task[t].fb, task[t].fe, "Cancelled"), fx.E, nev, fx.H, q)
+  /\ task' = [task EXCEPT ![t].pc = "cancelled", ![t].fe = 0, ![t].fh = "", ![t].fa = 0, ![t].todo = <<>>]   \* (fb is kept for the task_done below)
+  /\ UNCHANGED <<nev, q, unf, shut, running, idle, semv, depth, lockq, nact, nx, xh, cur>>
 
 RECURSIVE Chain(_)
 Chain(a) == IF task[HT(a)].pc = "waith" /\ task[HT(a)].fa # 0 THEN <<a>> \o Chain(task[HT(a)].fa) ELSE <<a>>
 OwnerAbandonRL(b) ==   \* a cancelled run loop: process_event is abandoned (probe line ProcX) ...
   /\ cur = NoTask /\ task[RL(b)].canc /\ task[RL(b)].pc \in {"monx", "mon"}
-  /\ LET t == RL(b) IN
-     /\ o' = Obs(ProcLineX("ProcX", t, task[t].fb, task[t].fe, "Cancelled"), ev, nev, hist, q)
+  /\ LET t == RL(b)
+         fx == AbandonFx(task[t].fb, task[t].fe) IN
+     /\ ev' = fx.E /\ hist' = fx.H
+     /\ o' = Obs(ProcLineX("ProcX", t, task[t].fb, task[t].fe, "Cancelled"), fx.E, nev, fx.H, q)
      /\ task' = [task EXCEPT ![t].pc = "dyingl", ![t].fe = 0, ![t].fb = "", ![t].fh = "", ![t].fa = 0, ![t].todo = <<>>]
   /\ cur' = RL(b)
-  /\ UNCHANGED <<nev, ev, q, unf, shut, hist, running, idle, semv, depth, lockq, nact, nx, xh>>
+  /\ UNCHANGED <<nev, q, unf, shut, running, idle, semv, depth, lockq, nact, nx, xh>>
 RLDieLocked(b) ==      \* ... then step()'s `async with` leaves the lock and _run_loop's finally clears the running flag
   /\ cur = RL(b) /\ task[RL(b)].pc = "dyingl"
   /\ LET t == RL(b)
@@ -557,9 +576,11 @@ TimeoutFire(t) ==
 HCancelAw(a) ==
   /\ cur = NoTask /\ a <= nact /\ task[HT(a)].pc = "cancelled" /\ task[HT(a)].aw # 0
   /\ o' = Obs(Line("AwE") @@ [act |-> a, e |-> task[HT(a)].aw, canc |-> TRUE, same |-> TRUE], ev, nev, hist, q)
-  /\ task' = [task EXCEPT ![HT(a)].aw = 0]
+  /\ task' = [task EXCEPT ![HT(a)].aw = 0, ![HT(a)].fb = ""]
+  \* on its way out of the inline loop: task_done() in the `finally` for the event it was processing (fix: F5, partial)
+  /\ unf' = IF task[HT(a)].fb # "" THEN [unf EXCEPT ![task[HT(a)].fb] = @ - 1] ELSE unf
   /\ cur' = HT(a)
-  /\ UNCHANGED <<nev, ev, q, unf, shut, hist, running, idle, semv, depth, lockq, nact, nx, xh>>
+  /\ UNCHANGED <<nev, ev, q, shut, hist, running, idle, semv, depth, lockq, nact, nx, xh>>
 HCancelExit(a) ==
   /\ a <= nact /\ task[HT(a)].pc = "cancelled" /\ task[HT(a)].aw = 0 /\ cur \in {NoTask, HT(a)}
   /\ o' = Obs(Line("HExit") @@ [act |-> a, out |-> "cancel"], ev, nev, hist, q)
